@@ -832,4 +832,9 @@ def generate(repo):
                + clist([f"({cval(v)}, {coval(r)})" for v, r in g["colors"]], ";\n   ") + ".\n")
     nc, npr, al = g["stats"]
     out.append(f"(* {nc} class expansions, {npr} properties, aliases: {al} *)")
-    return "\n".join(out) + "\n"
+    text = "\n".join(out) + "\n"
+    # fingerprint of this very text: lets a run verify that the compiled GenStyle.vo it evaluates against was
+    # generated from ITS repository (Gen/ is shared with concurrent runs on scratch copies)
+    import hashlib
+    fp = hashlib.sha1(text.encode()).hexdigest()
+    return text + f"\nDefinition gen_fingerprint : string := {cstr(fp)}.\n"
